@@ -1,7 +1,7 @@
 (* Extraction of the executable models for the correspondence check.
    ExtrOcamlBasic only: bool/option/unit/list/prod/sumbool/sumor map to OCaml natives;
    N / positive / nat stay the extracted inductive types.  Run with cwd = coq/extract. *)
-From CB Require Import Word PStream PEnc PMem PItem PUtf8 PBuild PDrive SpecHead SpecItem SpecParse HHeap HItems HOps HHist.
+From CB Require Import Word PStream PEnc PMem PItem PUtf8 PBuild PDrive SpecHead SpecItem SpecParse HHeap HItems HOps HHist PSize.
 Require Extraction.
 Require Import ExtrOcamlBasic.
 Extraction Language OCaml.
@@ -16,4 +16,5 @@ Extraction "model.ml"
   load callback append
   run_client
   encode_rfc load_spec tokenize
-  world0 step probe1 live_count run_hist.
+  world0 step probe1 live_count run_hist
+  ssize_s total_s shape.
